@@ -86,8 +86,12 @@ func (env *Env) RemoveFunc(pkgPath, funcName string) {
 }
 
 // GetFunc finds previously bound function searching for the `$pkgPath.$funcName` symbol.
+// It returns nil if there is no such function.
 func (env *Env) GetFunc(pkgPath, funcName string) *Func {
-	id := env.nameToFuncID[funcKey{qualifier: pkgPath, name: funcName}]
+	id, ok := env.nameToFuncID[funcKey{qualifier: pkgPath, name: funcName}]
+	if !ok {
+		return nil
+	}
 	return env.userFuncs[id]
 }
 
